@@ -115,7 +115,7 @@ class Explorer:
         self.invariants = invariants
         self.types = TypeParser(index, ['fpy2.number', 'fpy2.utils', 'fpy2', 'fpy2.ast', 'fpy2.analysis',
                                         'spec.c02', 'fpy2.number.context', 'fpy2.transform.path', 'fpy2.transform.cursor', 'fpy2.transform.error',
-                                        'fpy2.analysis.format_infer'])
+                                        'fpy2.analysis.format_infer', 'fpy2.number.engine'])
         # stand-in classes for external objects (Python ast nodes) live in spec modules; searched last
         self.types.default_modules += [m for m in ('spec.c06', 'spec.c07') if index.module(m) is not None]
         self.intrinsics = Intrinsics(self)
@@ -125,6 +125,7 @@ class Explorer:
         self.stats = defaultdict(int)
         self.feas_timeout_ms = feas_timeout_ms
         self.strict = strict
+        self._feas_default = feas_timeout_ms
         self.feas_axioms = True
         self.feas_light = os.environ.get('PYVC_FEAS_LIGHT', '1') == '1'   # feasibility checks without pairwise schemas
         self.timeout_ms = timeout_ms
@@ -403,6 +404,8 @@ class Explorer:
             base, _, fld = path.rpartition('.')
             obj = self._resolve_path(P, bound, base)
             ft = self.field_type(obj.cls, fld)
+            if path in c.overrides:      # the callee's contract retypes this field (e.g. a symbolic container)
+                ft = self.types.parse_str(c.overrides[path], info.module.name, info.cls)
             P.write(obj.fields, fld, Lazy(ft, P.fresh_name(f'{short}.{path}')))
         if is_init:
             obj = args[0]
@@ -596,7 +599,18 @@ class Explorer:
             tstr = c.params[p] if p in c.params else c.overrides[p]     # a field path listed in `overrides`
             t = self.types.parse_str(tstr, info.module.name if info else None, info.cls if info else None)
             alts = []
-            if t[0] == 'enum':
+            if t[0] == 'enum' and self.index.is_flag_enum(t[1]):
+                # a Flag enum: every combination of the single-bit members (the finite abstract domain), 0 = empty flag
+                mems = [(nm, v) for (nm, _), v in zip(self.index.enum_members(t[1]), self.enum_values(t[1]))
+                        if isinstance(v, int) and v > 0 and v & (v - 1) == 0]
+                full = 0
+                for _, v in mems:
+                    full |= v
+                for bits in range(full + 1):
+                    if bits & ~full:
+                        continue
+                    alts.append(('flag', t[1].qualname, bits, '|'.join(nm for nm, v in mems if v & bits) or '0'))
+            elif t[0] == 'enum':
                 for i, (nm, _) in enumerate(self.index.enum_members(t[1])):
                     alts.append(('enum', t[1].qualname, i, nm))
             elif t[0] == 'bool':
@@ -629,6 +643,10 @@ class Explorer:
                 cs = case[p]
                 if cs[0] == 'enum':
                     bound[p] = EnumV(self.index.find_class(cs[1]), cs[2])
+                    P.param_types[p] = (t, bound[p])
+                    continue
+                if cs[0] == 'flag':
+                    bound[p] = FlagV(self.index.find_class(cs[1]), cs[2])
                     P.param_types[p] = (t, bound[p])
                     continue
                 if cs[0] == 'bool':
@@ -932,7 +950,8 @@ class Explorer:
         status = 'none'
         for B in (bounds or self.refute_bound):
             try:
-                status, model = bounded_model(formulas, B, timeout_ms or self.refute_timeout_ms,
+                from . import ufmaps   # ufmaps: finite key universe for counter-model search (option refute_universe)
+                status, model = bounded_model(ufmaps.finite_universe(c, formulas), B, timeout_ms or self.refute_timeout_ms,
                                               extra=seqs.len_bounds(P, B))
             except Exception as e:
                 return None, f'error: {e}'
@@ -963,6 +982,7 @@ class Explorer:
         self.merge_light_only = bool(c.opts.get('split_heavy', False))
         self.opaque_specs = {k: (v[0], v[1]) for k, v in c.opts.get('opaque', {}).items()}
         self.quant = c.opts.get('quant')
+        self.feas_timeout_ms = c.opts.get('feas_ms', getattr(self, '_feas_default', None) or self.feas_timeout_ms)   # per-contract feasibility timeout (unknown = feasible)
         theory.EXTRA = set(c.opts.get('schemas', []))
         info = self.index.find_function(c.target) if c.target else None
         case = case or {}
